@@ -8,5 +8,5 @@ CONSTANTS
   MaxOps = 5
   IdsFromJournal = TRUE
   SeqnoFromMeta = TRUE
-INVARIANTS InForce StoredExact DecodeOfStored OpenIgnoresPassed IdsDistinct
+INVARIANTS InForce StoredExact DecodeOfStored NoDeadRows OpenIgnoresPassed IdsDistinct
 CHECK_DEADLOCK FALSE
